@@ -157,17 +157,35 @@ def c13_lattice(ver):
 
 def c13_coldstart(ver):
     d = build("rel")
-    n = 300 if ver.tier == "quick" else 6000
+    n = 450 if ver.tier == "quick" else 6000
     binp = os.path.join(d, "coldstart")
 
+    taskset = shutil.which("taskset")
+
     def one(i):
-        r = subprocess.run([binp, "16", str(ver.seed * 100003 + i)], stdout=subprocess.PIPE, stderr=subprocess.STDOUT, text=True, timeout=120)
+        # i%3==0: 16 threads released at the same instant on all cores (spin barrier);
+        # i%3==1: 32 threads pinned to ONE cpu, each sleeping a different 0..400 us before its first call, so
+        #         that timer wake-ups preempt a thread in the middle of its first call / of the detection and
+        #         the woken thread makes its own first call meanwhile (more runnable threads than CPUs);
+        # i%3==2: 32 threads pinned to one cpu behind a yielding barrier
+        sd = ver.seed * 100003 + i
+        mode, cpu, th = "spin", "-", "16"
+        if taskset and i % 3 == 1:
+            mode, cpu, th = "sleep", str(i % NCPU), "32"
+        elif taskset and i % 3 == 2:
+            mode, cpu, th = "yield", str(i % NCPU), "32"
+        cmd = [binp, th, str(sd)] + ([mode] if mode != "spin" else [])
+        if cpu != "-":
+            cmd = [taskset, "-c", cpu] + cmd
+        r = subprocess.run(cmd, stdout=subprocess.PIPE, stderr=subprocess.STDOUT, text=True, timeout=300)
         try:
-            return i, r.returncode, json.loads(r.stdout.strip().splitlines()[-1])
+            j = json.loads(r.stdout.strip().splitlines()[-1])
+            j["case"] = [th, str(sd), mode, cpu]
+            return i, r.returncode, j
         except Exception:
             return i, r.returncode, None
 
-    with ThreadPoolExecutor(max_workers=4) as ex:   # few at a time: 16 threads each
+    with ThreadPoolExecutor(max_workers=8) as ex:
         res = list(ex.map(one, range(n)))
     hist = {}
     bad = 0
@@ -182,17 +200,17 @@ def c13_coldstart(ver):
             bad += 1
             if bad <= 2:
                 ver.violations.append(dict(property="C13", rule="cold_start_race_changes_result", variant="rel", signature=None,
-                                           detail="16 threads making their first parse concurrently: thread %s got a result different from the sequential parse (seed %d)" % (j["first_bad_thread"], ver.seed * 100003 + i),
-                                           replay=["coldstart", "16", str(ver.seed * 100003 + i)],
-                                           replay_cmd=[binp, "16", str(ver.seed * 100003 + i)]))
-    ver.extra["cold_start"] = dict(processes=n, threads_per_process=16, detections_per_process_histogram={str(k): v for k, v in sorted(hist.items())},
+                                           detail="%s threads (mode %s, cpu %s) making their first parse concurrently: thread %s got a result different from the sequential parse (seed %s)" % (j["case"][0], j["case"][2], j["case"][3], j["first_bad_thread"], j["case"][1]),
+                                           replay=["coldstart"] + j["case"],
+                                           replay_cmd=["python3", os.path.join(VERIF, "driver", "coldstart_case.py")] + j["case"]))
+    ver.extra["cold_start"] = dict(processes=n, modes="a third each: 16 threads on all cores released by a spin barrier; 32 threads pinned to one CPU with 0..400 us sleeps before the first call (timer wake-ups preempt a thread inside its first call); 32 threads pinned to one CPU behind a yielding barrier", detections_per_process_histogram={str(k): v for k, v in sorted(hist.items())},
                                    max_allocator_events_in_first_call=allocs)
     raced = sum(v for k, v in hist.items() if k > 1)
     ver.extra["cold_start"]["processes_in_which_several_threads_raced_through_detection"] = raced
     if raced == 0:
         # nothing to conclude about the race on a machine that never provokes it (e.g. a single core)
         ver.inconclusive.append("cold-start race was never provoked in %d processes" % n)
-    ver.evaluations += n * 16
+    ver.evaluations += n * 24
 
 
 def c13(ver):
